@@ -1115,8 +1115,10 @@ Section WithEnv.
     { eexists; split; [reflexivity|]. rewrite Z.pow_1_r. symmetry; apply Z.mod_small; assumption. }
     destruct a as [x|t].
     - unfold rd_exp_1, r_exp_1. rewrite py_arith_ok by reflexivity.
-      eexists; split; [reflexivity|]. rewrite mk_int_den by lia. rewrite Z.shiftl_1_l.
-      rewrite py_pow3_spec by lia. cbn [bv_den]. apply Z.mod_mod; lia.
+      eexists; split; [reflexivity|]. rewrite mk_int_den by lia.
+      (* the VALUE is right for pow(lhs, rhs, 1 << size) and for the unreduced lhs ** rhs alike; what
+         separates them is the work measure (exp_prompt below) *)
+      rewrite ?Z.shiftl_1_l, ?py_pow3_spec by lia. cbn [bv_den]. rewrite ?Z.mod_mod by lia. reflexivity.
     - destruct (g_exp_3 y sebc); (eexists; split; [reflexivity|]); [|exact Hslow].
       rewrite exp_loop_den by (assumption || (left; reflexivity)). rewrite Z2Nat.id by lia.
       replace (den (Sv t) ^ (y - 1) * den (Sv t)) with (den (Sv t) ^ y); [reflexivity|].
